@@ -44,8 +44,8 @@ import decimal
 import fractions
 import itertools
 
-STR_POOL = ["West", "a&b <c>", "Ünï ©", " lead", "x'\"y", "日本"]
-NAME_POOL = ["Series 1", "S&P <500>", "Ünï © 3"]
+STR_POOL = ["West", "a&b <c>", "Ünï © \U0001F4C8", " lead", "x'\"y", "日本"]   # index 2: non-ASCII BMP + a character outside the BMP
+NAME_POOL = ["Series 1", "S&P <500>", "Ünï © 3 \U00020000"]
 FLOATS = [1.5, 1e-07, -0.0, -2.25, 123456789.125, 1e+20]
 
 LABEL_KINDS = ["str", "int", "float", "int_wide", "float_wide", "date_pre", "date_post", "datetime"]
